@@ -677,6 +677,14 @@ def pdu_eval(unit, recipe, s, via, base):
             return Fail(clause, subject, "declared-length", exc_s(e), len(base.raw))
         if n != len(base.raw):
             return Fail(clause, subject, "declared-length", n, len(base.raw))
+        if via == 1:  # the holder the factory hands out reports a length of its own: a stream of PDUs is split by it
+            try:
+                from units import cfdp_pdu as UP
+                hn = int(UP.L.PduFactory.from_raw_to_holder(base.raw + s).packet_len)
+            except Exception as e:
+                return Fail(clause, "PduFactory.from_raw_to_holder", "declared-length", exc_s(e), len(base.raw))
+            if hn != len(base.raw):
+                return Fail(clause, "PduFactory.from_raw_to_holder", "declared-length", hn, len(base.raw))
     if base.pack_ok:
         try:
             again = bytes(d.pack())
